@@ -543,6 +543,6 @@ pub fn run(env: &Env) -> i32 {
     rep.assume("definition order in the result is not compared (the statement fixes contents, not order); directive definitions are compared in order");
 
     // regression / known-finding probes (none listed for C11 at the moment)
-    rep.campaign("merge", env.cases(20_000, 600_000), (0, 400), case_fn);
+    rep.campaign("merge", env.cases(100_000, 1_000_000), (0, 400), case_fn);
     rep.finish()
 }
